@@ -7,6 +7,7 @@ import (
 	segment "github.com/blugelabs/bluge_segment_api"
 
 	"verif/harness/gen"
+	"verif/harness/model"
 	"verif/harness/runner"
 )
 
@@ -16,8 +17,21 @@ func c18Run(c *runner.Ctx) {
 	r := c.R
 	w, err := gen.GenWorld(r, c.TmpDir, fmt.Sprintf("w%d", c.Idx), gen.WorldOpts{MaxDocs: 140, Jumbo: c.Idx%150 == 0})
 	if err != nil {
-		c.Note("world construction failed (C01/C02/C04's business): " + firstLine(err.Error()))
-		return
+		// merges/loads are other properties' business; DocsMatchingTerms can still be examined on a built segment alone
+		var docs []*model.MDoc
+		if c.Idx%150 == 0 {
+			docs, _ = gen.JumboBatch(r, 2100+r.Intn(600), fmt.Sprintf("f%d", c.Idx))
+		} else {
+			docs = gen.GenBatch(r, gen.GenSchema(r), 20+r.Intn(100), fmt.Sprintf("f%d", c.Idx), gen.DocOpts{Repeat: true})
+		}
+		sg, berr := gen.BuildSeg(docs, 1025)
+		if berr != nil {
+			c.Note("world construction failed (C01/C02/C04's business): " + firstLine(err.Error()))
+			return
+		}
+		sg.X.Index()
+		w = &gen.World{Segs: []*gen.Seg{sg}}
+		c.Inc("fallback_single_built_segment", 1)
 	}
 	defer w.Close()
 	unknownFields := []string{"no-such-field", "", "zzz", "_idx"}
